@@ -15,6 +15,9 @@ Hosts == {<<TagHtml("input"), <<>>>>,
           <<TagHtml("input"), <<Plain("type", AvStr(<<"w_radio">>))>>>>,
           <<TagHtml("input"), <<Plain("type", AvStr(<<"w_number">>))>>>>,
           <<TagHtml("input"), <<Plain("type", AvExpr(Ident("ty", FALSE, S(<<116>>))))>>>>,
+          <<TagHtml("input"), <<Plain("type", AvExpr(Lit(S(<<99, 104, 101, 99, 107, 98, 111, 120>>))))>>>>,   \* type={"checkbox"}
+          <<TagHtml("input"), <<Plain("type", AvExpr(Lit(S(<<114, 97, 100, 105, 111>>))))>>>>,                  \* type={"radio"}
+          <<TagHtml("input"), <<Plain("type", AvExpr(Lit(S(<<116, 101, 120, 116>>))))>>>>,                      \* type={"text"}
           <<TagHtml("select"), <<>>>>, <<TagHtml("textarea"), <<>>>>, <<TagHtml("div"), <<>>>>,
           <<TagComp("Foo", TRUE, Opq("vFoo")), <<>>>>, <<TagComp("Bar", FALSE, Undef), <<>>>>}
 
